@@ -350,6 +350,35 @@ theorem stepReach_nonexp {s : Nat} (hp : RowNonneg o tl s) (hs : RowSumOne o tl 
     rw [hs ho] at this
     simpa using this
 
+/-- a state all of whose successors have value 0 has step value 0 (a Player-2 state needs a
+non-empty row, otherwise its step value is the start value 1 of the running minimum) -/
+theorem stepReach_eq_zero {s : Nat} (hp : RowNonneg o tl s)
+    (hne : o.getD s .prob = .p2 → tl.getD s [] ≠ []) (x : Array K)
+    (h : ∀ t ∈ tl.getD s [], x.getD t.tgt 0 = 0) : stepReach o tl x s = 0 := by
+  cases ho : o.getD s .prob with
+  | p1 =>
+    rw [stepReach_p1 o tl x s ho]
+    exact le_antisymm (maxOver_le _ _ _ _ le_rfl (fun t ht => le_of_eq (h t ht)))
+      (le_maxOver_init _ _ _)
+  | p2 =>
+    rw [stepReach_p2 o tl x s ho]
+    obtain ⟨t, ht⟩ := List.exists_mem_of_ne_nil _ (hne ho)
+    exact le_antisymm (le_trans (minOver_le_mem _ _ _ t ht) (le_of_eq (h t ht)))
+      (le_minOver _ _ _ _ zero_le_one (fun t ht => le_of_eq (h t ht).symm))
+  | prob =>
+    rw [stepReach_prob o tl x s ho]
+    have h1 := sumOver_upper x (tl.getD s []) 0 (hp ho) (fun t ht => le_of_eq (h t ht))
+    have h2 := sumOver_lower x (tl.getD s []) 0 (hp ho) (fun t ht => le_of_eq (h t ht).symm)
+    rw [zero_mul] at h1 h2
+    exact le_antisymm h1 h2
+
+/-- outside both arrays the step function is the empty weighted sum -/
+theorem stepReach_out_of_range {s : Nat} (ho : o.size ≤ s) (ht : tl.size ≤ s) (x : Array K) :
+    stepReach o tl x s = 0 := by
+  have h1 : o.getD s .prob = .prob := getD_of_size_le _ _ _ ho
+  have h2 : tl.getD s [] = [] := getD_of_size_le _ _ _ ht
+  rw [stepReach_prob o tl x s h1, h2]; rfl
+
 end Step
 
 /-! ### the Gauss–Seidel sweep -/
@@ -441,12 +470,12 @@ theorem sweepFrom_change_le (l : List Nat) (hnd : l.Nodup) (acc : Array K × K) 
       rw [← this]; exact ih'
 
 /-- the reported `diff` is attained: it is the start value or the change of a swept coordinate
-at the moment it was updated; with no duplicates and all swept indices in range this is the
-change of that coordinate over the whole sweep -/
-theorem sweepFrom_diff_attained (l : List Nat) (hnd : l.Nodup) (acc : Array K × K)
-    (hin : ∀ s ∈ l, s < acc.1.size) :
+(list without duplicates; swept indices beyond the array contribute `|0 - 0|`) -/
+theorem sweepFrom_diff_attained (l : List Nat) (hnd : l.Nodup) (acc : Array K × K) (h0 : 0 ≤ acc.2)
+    (hout : ∀ (x : Array K) s, acc.1.size ≤ s → stepReach o tl x s = 0) :
     (sweepFrom o tl l acc).2 = acc.2 ∨
-      ∃ s ∈ l, (sweepFrom o tl l acc).2 = |(sweepFrom o tl l acc).1.getD s 0 - acc.1.getD s 0| := by
+      ∃ s ∈ l, s < acc.1.size ∧
+        (sweepFrom o tl l acc).2 = |(sweepFrom o tl l acc).1.getD s 0 - acc.1.getD s 0| := by
   induction l generalizing acc with
   | nil => simp
   | cons s l ih =>
@@ -455,19 +484,30 @@ theorem sweepFrom_diff_attained (l : List Nat) (hnd : l.Nodup) (acc : Array K ×
     set acc1 : Array K × K := (acc.1.setIfInBounds s (stepReach o tl acc.1 s),
         max acc.2 |stepReach o tl acc.1 s - acc.1.getD s 0|) with hacc1
     have hsz : acc1.1.size = acc.1.size := by rw [hacc1]; simp
-    have hs : s < acc.1.size := hin s List.mem_cons_self
-    rcases ih hnd'.2 acc1 (fun s' hs' => by rw [hsz]; exact hin s' (List.mem_cons_of_mem _ hs'))
-      with h | ⟨s', hs', h⟩
-    · rcases max_choice acc.2 |stepReach o tl acc.1 s - acc.1.getD s 0| with h2 | h2
-      · left; rw [h, hacc1]; exact h2
+    have h01 : 0 ≤ acc1.2 := le_trans h0 (le_max_left _ _)
+    have hd1 : acc1.2 = acc.2 ∨ (s < acc.1.size ∧
+        acc1.2 = |stepReach o tl acc.1 s - acc.1.getD s 0|) := by
+      by_cases hs : s < acc.1.size
+      · rcases max_choice acc.2 |stepReach o tl acc.1 s - acc.1.getD s 0| with h2 | h2
+        · left; rw [hacc1]; exact h2
+        · right; exact ⟨hs, by rw [hacc1]; exact h2⟩
+      · left
+        have hs' : acc.1.size ≤ s := Nat.le_of_not_lt hs
+        rw [hacc1]; simp only []
+        rw [hout acc.1 s hs', getD_of_size_le _ _ _ hs']
+        simpa using h0
+    rcases ih hnd'.2 acc1 h01 (fun x s' hs' => hout x s' (by rw [← hsz]; exact hs'))
+      with h | ⟨s', hs', hlt', h⟩
+    · rcases hd1 with h2 | ⟨hs, h2⟩
+      · left; rw [h, h2]
       · right
-        refine ⟨s, List.mem_cons_self, ?_⟩
+        refine ⟨s, List.mem_cons_self, hs, ?_⟩
         rw [sweepFrom_untouched l acc1 s hnd'.1, h]
         have : acc1.1.getD s 0 = stepReach o tl acc.1 s := by
           rw [hacc1]; simp only []; rw [getD_setIfInBounds]; simp [hs]
-        rw [this, hacc1]; exact h2
+        rw [this, h2]
     · right
-      refine ⟨s', List.mem_cons_of_mem _ hs', ?_⟩
+      refine ⟨s', List.mem_cons_of_mem _ hs', by rw [← hsz]; exact hlt', ?_⟩
       have hne : s ≠ s' := fun e => hnd'.1 (e ▸ hs')
       have : acc1.1.getD s' 0 = acc.1.getD s' 0 := by
         rw [hacc1]; simp only []; rw [getD_setIfInBounds]; simp [hne]
@@ -476,7 +516,7 @@ theorem sweepFrom_diff_attained (l : List Nat) (hnd : l.Nodup) (acc : Array K ×
 /-- Bellman residual after a sweep: every swept in-range coordinate of the result is within
 the reported `diff` of its own `stepReach` value (needs non-expansiveness, i.e. `Σ p = 1`, `p ≥ 0`) -/
 theorem sweepFrom_residual (l : List Nat) (hnd : l.Nodup) (acc : Array K × K) (h0 : 0 ≤ acc.2)
-    (hp : ∀ s ∈ l, RowNonneg o tl s) (hs1 : ∀ s ∈ l, RowSumOne o tl s) (s : Nat) (hs : s ∈ l)
+    (s : Nat) (hp : RowNonneg o tl s) (hs1 : RowSumOne o tl s) (hs : s ∈ l)
     (hlt : s < acc.1.size) :
     |stepReach o tl (sweepFrom o tl l acc).1 s - (sweepFrom o tl l acc).1.getD s 0|
       ≤ (sweepFrom o tl l acc).2 := by
@@ -495,9 +535,48 @@ theorem sweepFrom_residual (l : List Nat) (hnd : l.Nodup) (acc : Array K × K) (
       have : acc1.1.getD s 0 = stepReach o tl acc.1 s := by
         rw [hacc1]; simp only []; rw [getD_setIfInBounds]; simp [hlt]
       rw [this]
-      exact stepReach_nonexp (hp s List.mem_cons_self) (hs1 s List.mem_cons_self) _ _ _ hchange
-    · exact ih hnd'.2 acc1 h01 (fun s' h' => hp s' (List.mem_cons_of_mem _ h'))
-        (fun s' h' => hs1 s' (List.mem_cons_of_mem _ h')) hs' (by rw [hsz]; exact hlt)
+      exact stepReach_nonexp hp hs1 _ _ _ hchange
+    · exact ih hnd'.2 acc1 h01 hs' (by rw [hsz]; exact hlt)
+
+/-! #### sub-solutions: the sweep only increases them -/
+
+/-- `x` is a sub-solution on `ord`: every listed in-range coordinate is at most its step value -/
+def SubSol (o : Array Owner) (tl : Array (List (Tr K))) (ord : List Nat) (x : Array K) : Prop :=
+  ∀ s ∈ ord, s < x.size → x.getD s 0 ≤ stepReach o tl x s
+
+theorem subSol_step (ord : List Nat) (n : Nat) (hp : ∀ s ∈ ord, s < n → RowNonneg o tl s)
+    (x : Array K) (hn : x.size = n) (s : Nat) (hs : s ∈ ord) (h : SubSol o tl ord x) :
+    SubSol o tl ord (x.setIfInBounds s (stepReach o tl x s)) ∧
+      ∀ j, x.getD j 0 ≤ (x.setIfInBounds s (stepReach o tl x s)).getD j 0 := by
+  by_cases hlt : s < x.size
+  · have hle : ∀ j, x.getD j 0 ≤ (x.setIfInBounds s (stepReach o tl x s)).getD j 0 := by
+      intro j
+      rw [getD_setIfInBounds]
+      by_cases hc : s = j ∧ s < x.size
+      · rw [if_pos hc]; obtain ⟨rfl, _⟩ := hc; exact h s hs hlt
+      · rw [if_neg hc]
+    refine ⟨?_, hle⟩
+    intro s' hs' hlt'
+    rw [Array.size_setIfInBounds] at hlt'
+    have hmono := stepReach_mono (hp s' hs' (hn ▸ hlt')) _ _ hle
+    refine le_trans ?_ hmono
+    rw [getD_setIfInBounds]
+    by_cases hc : s = s' ∧ s < x.size
+    · rw [if_pos hc]; obtain ⟨rfl, _⟩ := hc; exact le_rfl
+    · rw [if_neg hc]; exact h s' hs' hlt'
+  · rw [Array.setIfInBounds_eq_of_size_le (Nat.le_of_not_lt hlt)]
+    exact ⟨h, fun _ => le_rfl⟩
+
+theorem subSol_sweep (ord : List Nat) (n : Nat) (hp : ∀ s ∈ ord, s < n → RowNonneg o tl s)
+    (x : Array K) (hn : x.size = n) (h : SubSol o tl ord x) :
+    (sweepReach o tl ord x).1.size = n ∧ SubSol o tl ord (sweepReach o tl ord x).1 ∧
+      ∀ j, x.getD j 0 ≤ (sweepReach o tl ord x).1.getD j 0 := by
+  refine sweepReach_inv
+    (fun x' => x'.size = n ∧ SubSol o tl ord x' ∧ ∀ j, x.getD j 0 ≤ x'.getD j 0) ord ?_ x
+    ⟨hn, h, fun _ => le_rfl⟩
+  intro x' s hs ⟨hn', hsub, hle⟩
+  have := subSol_step ord n hp x' hn' s hs hsub
+  exact ⟨by simpa using hn', this.1, fun j => le_trans (hle j) (this.2 j)⟩
 
 end Sweep
 
@@ -583,6 +662,30 @@ theorem reverseDfs_nodup (tl : List (List Nat)) (finals : List Nat) :
   exact ((List.mergeSort_perm _ _).nodup_iff).mpr ((hall finals [] List.nodup_nil).filter _)
 
 /-! ### what `.ok` of `solveReach` says -/
+
+theorem checkGame_ok (g : Game K) (h : checkGame g = .ok ()) :
+    g.tl.size = g.owners.size ∧ ∀ f ∈ g.finals, f < g.owners.size := by
+  unfold checkGame at h
+  simp only [bind, Except.bind, pure, Except.pure, throw, throwThe, MonadExceptOf.throw] at h
+  split_ifs at h with h1 h2 h3 h4
+  · split at h <;> simp at h
+  · split at h <;> simp at h
+  · refine ⟨by simpa using h1, fun f hf => ?_⟩
+    simp only [List.any_eq_true, decide_eq_true_eq, not_exists, not_and] at h4
+    exact Nat.lt_of_not_ge (h4 f hf)
+
+theorem initStates_ok (g : Game K) (h : initStates g = .ok ()) :
+    ∀ row ∈ g.tl, row ≠ [] := by
+  unfold initStates at h
+  simp only [bind, Except.bind, pure, Except.pure, throw, throwThe, MonadExceptOf.throw] at h
+  split at h
+  · exact absurd h (by simp)
+  · split_ifs at h with h1
+    intro row hr he
+    apply h1
+    simp only [Array.any_eq_true]
+    obtain ⟨i, hi, hrow⟩ := Array.mem_iff_getElem.mp hr
+    exact ⟨i, hi, by simp [hrow, he]⟩
 
 /-- the initial vector: 1 on final states, 0 elsewhere -/
 def initVec (g : Game K) : Array K :=
